@@ -25,6 +25,20 @@ RULES = {
     'C17': 'find_settings query whose selection is present on a proper sub-range of the receiver',
 }
 
+EXPECTED_PROBES = {
+    'C01': ['sgr_equals_style_changes', 'sgr_more_than_style_changes', 'reset_and_reemit'],
+    'C04': ['empty_slice_of_formatted', 'bound_on_change_point', 'bound_next_to_change_point', 'negative_bound',
+            'bound_beyond_length', 'equal_settings_overlap_in_range'],
+    'C05': ['seam_equal_settings', 'seam_prefix_equal', 'seam_partly_equal', 'seam_different', 'seam_one_side_plain',
+            'empty_operand', 'self_operand'],
+    'C06': ['topmost_with_conflict', 'topmost_no_conflict', 'not_topmost_with_conflict', 'not_topmost_no_conflict',
+            'end_beyond_length', 'negative_bound', 'change_point_inside_range'],
+    'C07': ['selection_none', 'selection_absent', 'selection_present', 'selection_hits_equal_instances',
+            'selection_hidden_below_conflicting', 'two_or_more_span_range_end'],
+    'C12': ['pad_left_extend_formatted', 'pad_left_no_extend_formatted', 'pad_right_only_extend_formatted',
+            'pad_right_only_no_extend_formatted', 'center_odd_padding', 'fill_is_grammar_character'],
+}
+
 COMPONENTS = {
     'ansi_string package (ansi_string.py, ansi_parsing.py, ansi_format.py, ansi_param.py, utils.py)': 'real code',
     'SGR terminal consuming rendered output (sim/terminal.py)': 'stub (independent ECMA-48 CSI tokenizer + SGR state machine)',
@@ -47,6 +61,12 @@ def write(prop, tier, seed, total, stats, nontrivial, states, samples, sweep_inf
     ops_hist = {k.split(':', 1)[1]: v for k, v in stats.items() if k.startswith('op:')}
     skipped = {k.split(':', 1)[1]: v for k, v in stats.items() if k.startswith('skipped:')}
     other = {k: v for k, v in stats.items() if ':' not in k}
+    probes = {k.split(':', 1)[1]: v for k, v in stats.items() if k.startswith('probe:')}
+    for name in EXPECTED_PROBES.get(prop, ()):
+        probes.setdefault(name, 0)
+    gaps = sorted(k for k, v in probes.items() if v == 0)
+    if gaps:
+        print('coverage gap: probes never hit in this run: %s' % ', '.join(gaps))
     if not samples:
         samples = [{'note': 'no short non-trivial history was sampled in this run'}]
     distinct_nt = len(nontrivial) + (sweep_info.get('cases', 0) if sweep_info.get('exhaustive_sweep') else 0)
@@ -67,6 +87,7 @@ def write(prop, tier, seed, total, stats, nontrivial, states, samples, sweep_inf
         'ops_histogram': ops_hist,
         'distinct_states': len(states),
         'distinct_state_measure': 'distinct (text, per-character code lists) of values touched by a step',
+        'probes': probes,
         'skipped': skipped,
         'counters': other,
         'regression_witnesses_replayed': reg_n,
